@@ -302,6 +302,9 @@ def execute(ops, seed_key, schedule, qrng, rec, info, scale=None):
     fin = {"log_integral": np.asarray(cur.log_integral()),
            "Ex": np.asarray(cur.integrate("x")),
            "Exx": np.asarray(cur.integrate("xx'"))}
+    # the same read-outs a second time: a read-only query must not change what the next one returns
+    fin["log_integral(2nd call)"] = np.asarray(cur.log_integral())
+    fin["Ex(2nd call)"] = np.asarray(cur.integrate("x"))
     d = cur.get_density()
     fin["dens_mu"] = np.asarray(d.mu)
     fin["dens_Sigma"] = np.asarray(d.Sigma)
@@ -368,5 +371,8 @@ def run_cell(cell, rec, seed):
             rec.close(f"schedule {sched} vs A: final {k}", f[k], fA[k], ns=ns,
                       detail={"schedule": sched},
                       mech=f"schedule-dependence:final:{k}" + (":hetDa>Dy" if het_bad else ""))
+    for k in ("log_integral", "Ex"):
+        rec.close(f"second call of {k} returns the same", fA[k + "(2nd call)"], fA[k], exact=True,
+                  detail={"schedule": "A"}, mech=f"second-call-differs:{k}")
     if i < 3:
         rec.sample({"program": info["program"], "final_log_integral": fA["log_integral"]})
